@@ -404,7 +404,12 @@ class _Gen:
             return ["dot", ["f", v], ["vec"] + [_c(rng) for _ in range(n)]]
         if ty.startswith("rvec"):
             n = int(ty[4:])
-            return ["dot", ["sin", v], ["vec"] + [_c(rng) for _ in range(n)]]
+            e = ["dot", ["sin", v], ["vec"] + [_c(rng) for _ in range(n)]]
+            if n >= 2 and rng.random() < 0.5:
+                # couple two elements of the same site: marginals alone do not decide this term
+                i, j = (int(x) for x in rng.choice(n, size=2, replace=False))
+                e = ["+", e, ["*", _cs(rng, 0.5, 1.5), ["*", ["sin", ["idx", v, i]], ["idx", v, j]]]]
+            return e
         raise ValueError(ty)
 
     def atoms(self):
@@ -449,7 +454,12 @@ class _Gen:
             ty = "count"
         elif prim in NORMAL_LAW:
             if batch:
-                args = [["vec"] + [lin() for _ in range(batch)], ["scale", lin()]]
+                # which parameter carries the batch: location only, scale only (a scalar location broadcast against
+                # a vector scale), or both
+                lay = int(rng.integers(3))
+                loc = ["vec"] + [lin() for _ in range(batch)] if lay != 1 else lin()
+                sc = ["vec"] + [["scale", lin()] for _ in range(batch)] if lay != 0 else ["scale", lin()]
+                args = [loc, sc]
                 ty = f"rvec{batch}"
             else:
                 args = [lin(), ["scale", lin()]]
